@@ -10,6 +10,7 @@ import (
 	"regexp"
 	"sort"
 	"strings"
+	"sync"
 	"time"
 
 	"golang.org/x/tools/go/packages"
@@ -30,6 +31,7 @@ type Program struct {
 	LoadTime   time.Duration
 	RepoDir    string
 	pkgsRaw    []*packages.Package
+	funcInfo   sync.Map
 }
 
 const HaqqMod = "github.com/haqq-network/haqq"
@@ -126,6 +128,31 @@ func Load(repoDir, harnessDir string, pkgPaths []string) (*Program, error) {
 	sort.Strings(P.OverrideList)
 	P.LoadTime = time.Since(t0)
 	return P, nil
+}
+
+// noteFunc records the repository functions (not harness code) that were executed symbolically.
+func (P *Program) noteFunc(r *Run, fn *ssa.Function) {
+	if r == nil {
+		return
+	}
+	v, ok := P.funcInfo.Load(fn)
+	if !ok {
+		info := ""
+		if fn.Pkg != nil && strings.HasPrefix(fn.Pkg.Pkg.Path(), HaqqMod) && fn.Syntax() != nil {
+			file := P.Fset.Position(fn.Pos()).Filename
+			if !strings.Contains(file, "zz_verif") && !strings.Contains(file, "/zzverif/") {
+				info = P.FuncHash(fn)
+				if info == "" {
+					info = "?"
+				}
+			}
+		}
+		P.funcInfo.Store(fn, info)
+		v = info
+	}
+	if s := v.(string); s != "" {
+		r.addFunc(fn.String(), s)
+	}
 }
 
 func (P *Program) lookupIntrinsic(fn *ssa.Function, name string) (Intrinsic, bool) {
